@@ -30,7 +30,7 @@ CHECKS = {
         engine="simsym", category="translation_validation", ref="DESIGN.md 2, 5 (C09)",
         technique="SMT-based translation validation (symbolic execution of emitted Simplicity, z3 QF_UFBV); symbolic exit iteration, uninterpreted accumulator updates",
         text="One for_while per program, counter widths 1,2,4,8 with the exit iteration decided by a witness (so one query covers every exit iteration and 'never'), bodies that panic after the "
-             "exit point, ignore the counter, use tuple accumulators / unit contexts / a result type different from the accumulator; 16-bit counters in thorough with the exit point given as one of 8 literals <= 4095 (longer 16-bit runs take 45-90 min each in this engine and are outside the claim). "
+             "exit point, ignore the counter, use tuple accumulators / unit contexts / a result type different from the accumulator; 16-bit counters with the exit point given as a literal (quick: 0, 1, 2, 257; thorough: 8 literals <= 4095 ; longer 16-bit runs take 45-90 min each in this engine and are outside the claim). "
              "The solver proves equality with the source-level loop 'first Left wins, later iterations are not evaluated, Right(acc) after 2^n iterations' for all accumulator/context values.",
         note=TRUST_E1),
     "C10": dict(
@@ -51,11 +51,13 @@ CHECKS = {
         note=TRUST_E1),
     "C14": dict(
         engine="simsym", category="translation_validation", ref="DESIGN.md 2, 5 (C14)",
-        technique="SMT (z3 QF_UFBV) equivalence of debug and plain build of the emitted DAG for all witnesses; structural comparison of marker CMRs with debug_symbols() and the program's tracked calls",
+        technique="SMT (z3 QF_UFBV) equivalence of debug and plain build of the emitted DAG for all witnesses; structural comparison of marker CMRs with debug_symbols() and the program's tracked calls; SMT proof that each dbg!/unwrap_left/unwrap_right marker receives the book-layout bits of the source-level argument on every successful run; real TrackedCall::map_value on solver-completed witnesses",
         text="Neutrality: for a slice of families F01/F08/F09/F10, debug-specific programs (dbg! in functions called twice, in fold and for_while bodies, all tracked kinds, two layouts) and ALL shipped examples "
              "(jets uninterpreted) the solver proves fails(debug build) == fails(plain build) for all witnesses. Bookkeeping on the emitted artefact: every assertl of the debug build is a fail node or resolves through "
              "debug_symbols(); the marker tag is the constant false; the (kind, text) set of the markers equals the tracked calls of the program text; distinct sites have distinct CMRs. "
-             "Value reconstruction of dbg! arguments is not claimed.",
+             "Marker values: 130 programs (dbg! at 56 types in main / function called twice / match arms, unwrap_left/right at 10 Either types, computed arguments): the solver proves for all witnesses that the value entering "
+             "each reached marker is the source-level argument value in the documented layout, and the REAL map_value (Value::reconstruct) applied to those bits on 2 solver-completed successful witnesses per program returns exactly the value the book layout reads. "
+             "Value::reconstruct for all values of a type is not claimed (not encodable).",
         note=TRUST_E1),
 
     "C06": dict(
